@@ -1254,6 +1254,34 @@ class Explorer:
             if ty in ("u8", "u16", "u32", "u64", "usize", "i32", "i64"):
                 return ret(C(0, ty))
             return None
+        # ---- mem::take / mem::replace / Option::take / Option::replace: read the place, write the new value
+        if p in ("std::mem::take", "std::mem::replace", "std::option::Option::<T>::take", "std::option::Option::<T>::replace"):
+            a0 = args[0]
+            if a0[0] != "ref":
+                return None
+            cur = self.read_loc(st, a0[1], a0[2])
+            if p == "std::mem::replace":
+                newv = args[1]
+            elif p.endswith("Option::<T>::replace"):
+                newv = AGG("std::option::Option", "Some", (args[1],))
+            elif p.endswith("Option::<T>::take"):
+                newv = AGG("std::option::Option", "None")
+            else:
+                ty = info["targs"][0] if info.get("targs") else ""
+                if ty.startswith("std::option::Option<"):
+                    newv = AGG("std::option::Option", "None")
+                elif ty == "bool":
+                    newv = C(0, "bool")
+                elif ty in ("u8", "u16", "u32", "u64", "usize", "i32", "i64", "u128"):
+                    newv = C(0, ty)
+                elif ty.startswith("std::vec::Vec<") and tracked_elem(ty[len("std::vec::Vec<"):-1]):
+                    newv = ("vec", ())
+                else:
+                    return None
+            if a0[1][0] != "L":
+                st.effects.append(("write", a0[1], a0[2], newv, site))
+            self.write_loc(st, a0[1], a0[2], newv)
+            return ret(cur)
         if p in ("std::option::Option::<T>::as_ref", "std::option::Option::<T>::as_mut"):
             a0 = args[0]
             OPT = "std::option::Option"
